@@ -1267,6 +1267,10 @@ fn ctx_cases(thorough: bool) -> Vec<CtxCase> {
         ParamSpec::new(Scheme::BGV, 4, he::chain(4, &[60, 60]), 97),
         ParamSpec::new(Scheme::CKKS, 8, he::chain(8, &[60, 40, 40, 60]), 0),
         ParamSpec::new(Scheme::CKKS, 4, he::chain(4, &[30, 30]), 0),
+        // every prime = 1 (mod 2N*t): q_last^-1 mod t == 1 at every level, the special case of the BGV division
+        // (this is what a SEAL-style "create with plain modulus" prime choice produces) — added after seeded change C10-D
+        ParamSpec::new(Scheme::BGV, 4, crate::refmodel::bigu::primes_1_mod(8 * 17, 40, 3), 17),
+        ParamSpec::new(Scheme::BGV, 8, crate::refmodel::bigu::primes_1_mod(16 * 97, 50, 4), 97),
     ];
     if thorough {
         specs.extend([
